@@ -132,7 +132,7 @@ func c18BuildTree(t testing.TB, r *vrRepo, tr c18Tree, ino *uint64) restic.ID {
 				case "t":
 					kids = append(kids, symlink("x", "outfile", 1))
 				case "d":
-					sub := r.saveTreeRaw(t, []*data.Node{file("y", false)})
+					sub := r.queueTreeRaw(t, []*data.Node{file("y", false)})
 					kids = append(kids, dir("x", sub))
 				case "e":
 					kids = append(kids, file("../../esc", false))
@@ -142,12 +142,12 @@ func c18BuildTree(t testing.TB, r *vrRepo, tr c18Tree, ino *uint64) restic.ID {
 					panic("kid " + k)
 				}
 			}
-			nodes = append(nodes, dir(n.N, r.saveTreeRaw(t, kids)))
+			nodes = append(nodes, dir(n.N, r.queueTreeRaw(t, kids)))
 		default:
 			panic("node type " + n.T)
 		}
 	}
-	return r.saveTreeRaw(t, nodes)
+	return r.queueTreeRaw(t, nodes)
 }
 
 func c18Must(err error) {
@@ -341,13 +341,14 @@ func TestVerif_C18(t *testing.T) {
 		sn.Tree = &id
 		snaps[i] = sn
 	}
+	r.flushQueued(t)
 
 	// the scenarios: cross product, "leaves" selection only for trees with a directory; the quick tier
 	// takes a seeded sample, the thorough tier everything with sparse chosen by parity
 	type job struct{ ti, ei int }
 	var jobs []job
 	rng := kit.Rand(18)
-	quickP := 0.012
+	quickP := 0.01
 	for ti := range trees {
 		for ei, e := range envs {
 			if e.Select == "leaves" && !hasDir[ti] {
